@@ -15,7 +15,7 @@ class C12(ProgramProperty):
             "canonical CURIE prefixes / synonyms / unknown), values are unused strings, synonyms of the same record, "
             "URI prefixes owned by other records, or a key (transitive); two keys may hit one record. remap_uri_prefixes "
             "is applied once, rewire twice (idempotence); records are read and compress / expand compared before and "
-            "after. Non-trivial = some value is already known to the converter (clash or synonym upgrade). In 35 % of the cases input and results live on (gen.live_tail): each is extended by a merge, all are observed again, and both derivations are repeated on the curated input. An injective mapping must never be rejected (except TransitiveError).")
+            "after. Non-trivial = some value is already known to the converter (clash or synonym upgrade). In 35 % of the cases input and results live on (gen.live_tail): each is extended by a merge, all are observed again, and both derivations are repeated on the curated input. An injective mapping must never be rejected (except TransitiveError). 8 % of the values are another capitalisation of a key or of a known URI prefix (a different string: neither transitive nor a clash).")
 
     def budget(self, tier):
         return 4000 if tier == "quick" else 150000
@@ -28,7 +28,14 @@ class C12(ProgramProperty):
         for k in keys:
             for _ in range(20):
                 r = rng.random()
-                if r < 0.45:
+                if r < 0.08:
+                    # a key (or a URI prefix of the converter) in another capitalisation: a different string, so neither
+                    # transitive nor a clash
+                    b = rng.choice(keys + (us or []))
+                    v = rng.choice([b.upper(), b.lower(), b.swapcase(), b.replace("ss", "ß"), b.replace("http", "HTTP")])
+                    if v == b or v in keys_pool:
+                        continue
+                elif r < 0.45:
                     v = "http://new.example/" + gen.word(rng, 1, 2, syms=["a", "b", "1", "/"])
                 elif r < 0.9 and us:
                     v = rng.choice(us)
